@@ -232,7 +232,7 @@ def parse_dispatch(ctx):
     return out
 
 
-@rule("PARSE-GROUP", ["C07", "C03", "C19", "C17", "C01"], floor=8)
+@rule("PARSE-GROUP", ["C07", "C03", "C19", "C17", "C01", "C16"], floor=8)
 def parse_group(ctx):
     """parse_expr: a capturing group takes its number from the counter at its opening parenthesis (pre-order),
     the counter is incremented before the contents are parsed, ')' must close it (else Error::Syntax), and only then
@@ -295,6 +295,35 @@ def parse_group(ctx):
     for k in ("toplevel|end-program", "close-paren-required", "capture|numbered-at-open", "capture|closed-after-paren", "noncapturing|no-capture", "closed-only-if-capturing"):
         if k not in d:
             d[k] = [False, "parse_expr lost its %s clause" % k, b.loc()]
+    # every '|' opens a branch, an empty one included (`a|` has two alternatives, the second matches the empty string):
+    # from the place where a bar is consumed, no way leads out of the function except through parse_branch
+    pbs = {bb for bb, t, r_ in call_sites(b, lambda r: r.endswith("ReCompiler::parse_branch"))}
+    bars = []
+    for bi, blk in enumerate(b.blocks):
+        if blk.get("cleanup"):
+            continue
+        for st_ in blk["stmts"]:
+            if st_["k"] == "assign" and any(isinstance(e, dict) and e.get("f") == "idx" for e in st_["place"]["p"]):
+                gsx = [strip_ver(g) for g in guard_strings(b, bi, se)]
+                if any(re.search(r"pattern\[.*idx.*\]='\|'$", g) or re.search(r"^eq\('\|', .*pattern\[.*idx", g) for g in gsx):
+                    bars.append(bi)
+    if not bars:
+        _rec(d, "bar-opens-a-branch", False, "parse_expr has no place where it consumes a '|' (restructured; re-audit)", b.loc())
+    for bi in bars:
+        seen_, stack, leak = {bi}, ([] if bi in pbs else [bi]), None
+        while stack and leak is None:
+            x = stack.pop()
+            if x != bi and x in pbs:
+                continue
+            t_ = b.blocks[x]["term"]
+            if t_["k"] == "return":
+                leak = x
+                break
+            for y in b.succs(x):
+                if y not in seen_ and not b.blocks[y].get("cleanup"):
+                    seen_.add(y)
+                    stack.append(y)
+        _rec(d, "bar-opens-a-branch", leak is None, "after a '|' was consumed parse_expr can return without having parsed the branch behind it (an empty alternative at the end of the pattern - 'a|' - is dropped: the regex no longer matches the empty string and is not refused)", b.loc(bi))
     # alternation: Choice::new(branches collected in push order)
     ch = call_sites(b, lambda r: r.endswith("op_choice::Choice::new"))
     _rec(d, "choice-in-source-order", bool(ch) and not call_sites(b, lambda r: r.endswith("::rev") or r.endswith("::reverse") or r.endswith("::sort")), "several branches must become Choice::new(branches) in the order parsed", b.loc())
